@@ -577,7 +577,17 @@ class _Flattener:
         loop = body[-1]
         ys = [n for n in ast.walk(callee) if isinstance(n, (ast.Yield, ast.YieldFrom))]
         last = loop.body[-1] if loop.body else None
-        if len(ys) != 1 or not (isinstance(last, ast.Expr) and last.value is ys[0] and isinstance(ys[0], ast.Yield) and ys[0].value is not None):
+        def in_tail(stmts):
+            # the yield is the last thing an iteration does: the last statement, or inside one arm of a trailing if / elif / else chain
+            if not stmts:
+                return False
+            l_ = stmts[-1]
+            if isinstance(l_, ast.Expr) and l_.value is ys[0]:
+                return True
+            if isinstance(l_, ast.If):
+                return in_tail(l_.body) or in_tail(l_.orelse)
+            return False
+        if len(ys) != 1 or not isinstance(ys[0], ast.Yield) or ys[0].value is None or not in_tail(loop.body):
             return None
         for n in ast.walk(callee):
             if n is not callee and isinstance(n, (ast.FunctionDef, ast.AsyncFunctionDef, ast.ClassDef, ast.Lambda, ast.Global, ast.Nonlocal, ast.Await, ast.Return)):
@@ -627,9 +637,21 @@ class _Flattener:
         sub = _Subst(rename, exprs)
         body = [sub.visit(st_) for st_ in body]
         gl = body[-1]
-        y = gl.body[-1].value
-        bind = self._assign_back(clone(loop.target), y.value, loop)
-        merged = ast.copy_location(ast.For(target=gl.target, iter=gl.iter, body=gl.body[:-1] + bind + list(loop.body), orelse=[]), loop)
+
+        def put(stmts):
+            l_ = stmts[-1]
+            if isinstance(l_, ast.Expr) and isinstance(l_.value, ast.Yield):
+                bind_ = self._assign_back(clone(loop.target), l_.value.value, loop)
+                return stmts[:-1] + bind_ + list(loop.body)
+            if isinstance(l_, ast.If):
+                has_ = lambda b_: any(isinstance(n_, ast.Yield) for x_ in b_ for n_ in ast.walk(x_))
+                if has_(l_.body):
+                    l_.body = put(l_.body)
+                else:
+                    l_.orelse = put(l_.orelse)
+                return stmts
+            return stmts
+        merged = ast.copy_location(ast.For(target=gl.target, iter=gl.iter, body=put(list(gl.body)), orelse=[]), loop)
         ast.fix_missing_locations(merged)
         self.expanded.append(callee.name)
         return self.block(pre + body[:-1] + [merged], caller_names | set(rename.values()), stack + (callee.name,), depth + 1)
